@@ -84,6 +84,12 @@ public:
         {
             pdf_.emplace_back(dimensions, bins_);
         }
+        else if (this->results().empty() && (pdf_.front().dimensions() == 0))
+        {
+            // the checkpoint was read from a stream before it was ever used for an integration;
+            // only the number of bins is known
+            pdf_.assign(1, vegas_pdf<T>(dimensions, pdf_.front().bins()));
+        }
 
         assert( this->results().empty() ||
             (this->results().back().pdf().dimensions() == dimensions) );
@@ -124,7 +130,17 @@ public:
         if (this->results().empty())
         {
             out << '\n';
-            pdf_.front().serialize(out);
+
+            if (pdf_.empty())
+            {
+                // the checkpoint was not used yet and the number of dimensions is unknown; write
+                // a pdf with zero dimensions to remember the number of bins
+                out << bins_ << ' ' << 0;
+            }
+            else
+            {
+                pdf_.front().serialize(out);
+            }
         }
     }
 
